@@ -1,15 +1,16 @@
 ---------------------------- MODULE Gen_Dispatch ----------------------------
 (* Scenario generator of C06: every well-formed declaration (set of response keys of one operation) of at most
-   MaxDecl members of DispatchCore!Universe - the same operator (DeclSets) that spans the design check - with
-   what the as-is model says about the emitted package (importable or not).  One SCEN line per declaration. *)
+   MaxDecl members of DispatchCore!Universe with a choice of the response that the document lists first - the same
+   operator (Scenarios) that spans the design check - and what the as-is model says about the emitted package
+   (importable or not, which response is primary).  One SCEN line per (declaration, first). *)
 EXTENDS DispatchCore, TLC, Json, SequencesExt
-CONSTANTS MaxDecl
+CONSTANTS MaxDecl, AllOrders
 VARIABLES sc, done
 
-Init == sc \in DeclSets(Universe, MaxDecl) /\ done = FALSE
+Init == sc \in Scenarios(Universe, MaxDecl, AllOrders) /\ done = FALSE
 Emit ==
   /\ ~done /\ done' = TRUE /\ UNCHANGED sc
-  /\ PrintT("SCEN " \o ToJson([decl |-> SetToSeq(sc), importable |-> Importable("as_is", sc),
-                               returns_value |-> ReturnsValue(sc)]))
+  /\ PrintT("SCEN " \o ToJson([decl |-> SetToSeq(sc.d), first |-> sc.first, canonical |-> (sc.first = CanonFirst(sc.d)),
+                               importable |-> Importable("as_is", sc.d), primary |-> Primary(sc.d, sc.first)]))
 Spec == Init /\ [][Emit]_<<sc, done>>
 =============================================================================
